@@ -522,6 +522,25 @@ def classify_loop(ctx, fn, H, bodies, folds):
             ok = ok and variants == {True, False}
             ctx.ob("R05.1", "allow|iteration", ok, "each iteration writes Method::raw(item of self.allow, in order) followed by ', ' exactly when idx < len - 1", loc)
             return ("ALLOW", "A", None) if ok else ("bad",)
+        # form E: item, then ", " unless the item *is* the last element (identity, `ptr::eq(item, allow.last())`): positional like
+        # idx < len - 1.  A comparison of values (`item != last`) is not: equal methods may repeat in the list.
+        by_identity = []
+        for lf, i1, body in writing:
+            d = None
+            for e in lf.events[i1:]:
+                if e[0] == "cond" and is_call(look(e[3]), "std::ptr::eq") and truth(e[4]) is not None:
+                    a, b = [look(x) for x in look(e[3])[2]]
+                    for x, y in ((a, b), (b, a)):
+                        ly = payload_of(y)
+                        if is_item(x) and ly is not None and is_call(ly, "last") and ly[1].startswith("core::slice") and resp_field(ly[2][0], "headers", "allow"):
+                            d = not truth(e[4])
+            by_identity.append(d)
+        if by_identity and all(d is not None for d in by_identity):
+            ok = set(by_identity) == {True, False}
+            for (lf, i1, body), d in zip(writing, by_identity):
+                ok = ok and len(body) == (2 if d else 1) and is_raw_item(body[0], False) and (not d or body[1] == ("C", b", "))
+            ctx.ob("R05.1", "allow|iteration", ok, "each iteration writes Method::raw(item of self.allow, in order) followed by ', ' exactly when the item is not (by identity) the last element", loc)
+            return ("ALLOW", "E", None) if ok else ("bad",)
         # form C: (item ", ") for every element but the last, then the last:  (last, others) = allow.split_last()
         # form B: (", " item) for every element after the first, which was taken from the same iterator
         ok = len(writing) >= 1
@@ -567,6 +586,8 @@ def set_body(ctx):
                 tgt = look(e[4][2][0])
                 if tgt[0] == "field" and tgt[3] == "content_length":
                     length = ("agg", "std::option::Option", "Some", (e[4][2][1],))      # `length.replace(v)` stores Some(v)
+                if tgt[0] == "field" and tgt[3] == "body" and look(tgt[1]) == ("arg", 1):
+                    stored = ("agg", "std::option::Option", "Some", (e[4][2][1],))      # insert / replace always store (get_or_insert does not)
         ok_store = stored is not None and stored[0] == "agg" and stored[2] == "Some" and look(stored[3][0]) == ("arg", 2)
         ok_len = False
         if length is not None and length[0] == "agg" and length[2] == "Some":
